@@ -82,8 +82,8 @@ fn fields_of(i: &Instruction, f: &mut [i64; 6]) -> (usize, usize)
 		Lsl{dst, value, shift} => rrx!(24, dst, value, shift),
 		Lsr{dst, value, shift} => rrx!(25, dst, value, shift),
 		Mov{flags, dst, src} => {f[0] = *flags as i64; f[1] = r(*dst); (26, ir(src, f, 2))},
-		Mrs{dst, src} => {f[0] = r(*dst); f[1] = u8::from(*src) as i64; (27, 2)},
-		Msr{dst, src} => {f[0] = u8::from(*dst) as i64; f[1] = r(*src); (28, 2)},
+		Mrs{dst, src} => {f[0] = r(*dst); f[1] = sysm_of(*src) as i64; (27, 2)},
+		Msr{dst, src} => {f[0] = sysm_of(*dst) as i64; f[1] = r(*src); (28, 2)},
 		Mul{dst, rhs} => rr!(29, dst, rhs),
 		Mvn{dst, value} => rr!(30, dst, value),
 		Nop => (31, 0),
@@ -119,7 +119,7 @@ fn fields_of(i: &Instruction, f: &mut [i64; 6]) -> (usize, usize)
 fn reg(v: i64) -> Option<Register> {if (0..16).contains(&v) {Register::try_from(v as u8).ok()} else {None}}
 fn flag(v: i64) -> Option<bool> {match v {0 => Some(false), 1 => Some(true), _ => None}}
 fn cond(v: i64) -> Option<Condition> {if (0..15).contains(&v) {Condition::try_from(v as u8).ok()} else {None}}
-fn sysr(v: i64) -> Option<SystemReg> {if (0..256).contains(&v) {SystemReg::try_from(v as u8).ok()} else {None}}
+fn sysr(v: i64) -> Option<SystemReg> {if (0..256).contains(&v) {sysreg_of(v as u8)} else {None}}
 fn rset(v: i64) -> Option<RegisterSet> {if (0..65536).contains(&v) {Some(RegisterSet::of(v as u16))} else {None}}
 fn i32v(v: i64) -> Option<i32> {i32::try_from(v).ok()}
 fn immreg(k: i64, v: i64) -> Option<ImmReg>
